@@ -6,6 +6,7 @@ mod common;
 mod dens;
 mod props;
 mod script;
+mod sketchers;
 
 use common::{Ctx, Tier};
 
